@@ -289,7 +289,7 @@ func consCorpus(r *core.Run) {
 
 // consRandom: random sessions (all three mutation levels), the network advancing in between.
 func consRandom(r *core.Run) {
-	r.Cases("cons-random", r.N(32, 640), childOpts, func(c *core.Case) {
+	r.Cases("cons-random", r.N(32, 1280), childOpts, func(c *core.Case) {
 		rg := c.R
 		spec := envSpec{Mode: "caughtup", Height: uint64([]int{0, 2, 2, 3, 3, 4}[rg.Intn(6)]), Stage: rg.Intn(30)}
 		if rg.Intn(4) == 0 {
@@ -425,7 +425,7 @@ func otherCorpus(r *core.Run) {
 }
 
 func otherRandom(r *core.Run) {
-	r.Cases("other-random", r.N(32, 480), childOpts, func(c *core.Case) {
+	r.Cases("other-random", r.N(32, 960), childOpts, func(c *core.Case) {
 		rg := c.R
 		spec := envSpec{Mode: "caughtup", Height: uint64([]int{0, 2, 3, 4}[rg.Intn(4)]), Stage: rg.Intn(20)}
 		if rg.Intn(3) == 0 {
@@ -641,7 +641,7 @@ func (rn *Runner) FetchRace(r *rand.Rand) {
 // with invalid headers, structurally mutated genuine blocks, byte garbage) and all its
 // parts; the node assembles, decodes, validates and prevotes.
 func byzProposer(r *core.Run) {
-	r.Cases("byz-proposer", r.N(24, 240), childOpts, func(c *core.Case) {
+	r.Cases("byz-proposer", r.N(24, 480), childOpts, func(c *core.Case) {
 		rg := c.R
 		spec := envSpec{Mode: "caughtup", Height: uint64(rg.Intn(3))}
 		rn := open(c, spec)
@@ -994,7 +994,7 @@ func makeBlockWith(e *Env, extraTxs []*types.Transaction, evs []types.Evidence) 
 // attacker's vote sitting in the node's vote sets (tallies, commit construction,
 // evidence against the attacker's validator when its honest twin votes too).
 func byzVotes(r *core.Run) {
-	r.Cases("byz-votes", r.N(8, 96), childOpts, func(c *core.Case) {
+	r.Cases("byz-votes", r.N(8, 192), childOpts, func(c *core.Case) {
 		rg := c.R
 		spec := envSpec{Mode: "caughtup", Height: uint64(1 + rg.Intn(2))}
 		rn := open(c, spec)
@@ -1075,7 +1075,7 @@ func concurrentGroup(r *core.Run) {
 	if os.Getenv("C18_RACE") != "" {
 		opts.Race = true // needs bin/vcheck-c18-race (tools/dev.sh C18 ... --race)
 	}
-	r.Cases("concurrent", r.N(8, 96), opts, func(c *core.Case) {
+	r.Cases("concurrent", r.N(8, 192), opts, func(c *core.Case) {
 		rg := c.R
 		spec := envSpec{Mode: "caughtup", Height: uint64(2 + rg.Intn(2)), Stage: rg.Intn(12)}
 		rn := open(c, spec)
